@@ -560,3 +560,168 @@ def pattern_cases(seed, part, parts, reps=4):
                                 f[o.attr] = pl[(k + i) % len(pl)]
                         f[PATTERN_CLASSES[name]] = pattern_uri(rng, shape)
                         yield k, "%s/pattern-%s-%s%s" % (name, m or "absent", shape, "+opts" if with_opts else ""), f, [m or "absent", shape]
+
+
+# ------------------------------------------------------------------------------------------------
+# serializer CONFIGURATIONS (constructor options besides ``batched``) and the fan-out of ONE message object over several
+# transports (= several serializer instances: other formats, other configurations of the same format, other instances of
+# the same configuration)
+# ------------------------------------------------------------------------------------------------
+
+# (config tag, serializer class, constructor kwargs besides batched).  A variant id is  <family><tag>[.batched]
+SER_CONFIGS = [
+    ("", "JsonSerializer", {}),
+    # the second JSON binary convention of the anchors: "0x" + hex instead of "\0" + base64
+    ("+hex", "JsonSerializer", {"use_binary_hex_encoding": True}),
+    # Decimal handling of the anchors: strings that look like decimal numbers are delivered as Decimal (such strings are
+    # kept away from this configuration, see config_skips); everything else must come through unchanged
+    ("+dec", "JsonSerializer", {"use_decimal_from_str": True}),
+    ("", "MsgPackSerializer", {}),
+    ("", "CBORSerializer", {}),
+    ("", "UBJSONSerializer", {}),
+]
+KNOWN_CTOR_OPTIONS = {"JsonSerializer": {"batched", "use_binary_hex_encoding", "use_decimal_from_str"},
+                      "MsgPackSerializer": {"batched"}, "CBORSerializer": {"batched"}, "UBJSONSerializer": {"batched"}}
+
+
+def variant_parts(sid):
+    """'json+hex.batched' -> ('json', '+hex', True)"""
+    base, _, b = sid.partition(".")
+    fam, plus, cfg = base.partition("+")
+    return fam, plus + cfg, b == "batched"
+
+
+def plain_sid(sid):
+    fam, _cfg, batched = variant_parts(sid)
+    return fam + (".batched" if batched else "")
+
+
+def skipped(sid, skip):
+    """``skip`` holds serializer families ('json') and/or configuration tags ('+hex')."""
+    if not skip:
+        return False
+    fam, cfg, _b = variant_parts(sid)
+    return fam in skip or (cfg != "" and cfg in skip)
+
+
+def serializer_variants(S):
+    """-> [(sid, class, kwargs incl. batched)] for every installed serializer class x configuration x batching, and the
+    constructor options the table does not know (reported as a note)."""
+    import inspect
+    out, unknown = [], []
+    for tag, name, kw in SER_CONFIGS:
+        cls = getattr(S, name, None)
+        if cls is None:
+            continue
+        for batched in (False, True):
+            out.append((cls.SERIALIZER_ID + tag + (".batched" if batched else ""), cls, dict(kw, batched=batched)))
+    for name, known in KNOWN_CTOR_OPTIONS.items():
+        cls = getattr(S, name, None)
+        if cls is not None:
+            try:
+                params = [p for p in inspect.signature(cls.__init__).parameters if p != "self"]
+            except (TypeError, ValueError):
+                params = []
+            unknown += ["%s(%s)" % (name, p) for p in params if p not in known]
+    return out, unknown
+
+
+import re
+
+# text a "parse strings as Decimals" option may legitimately turn into a Decimal (deliberately wider than any one
+# implementation: everything made of sign / digit (any script) / '.' / '_' / exponent characters, and the NaN / Infinity
+# spellings decimal.Decimal accepts)
+_DECIMAL_LOOKING = re.compile(r"^[\s+\-.\d_eE]+$|^\s*[+\-]?s?(nan|inf|infinity)\d*\s*$", re.I)
+
+
+def _walk_scalars(root):
+    """All scalar leaves AND dict keys of a (possibly deep) value, iteratively."""
+    stack = [root]
+    while stack:
+        v = stack.pop()
+        t = type(v)
+        if t in (list, tuple):
+            stack.extend(v)
+        elif t is dict:
+            for k, x in v.items():
+                yield k
+                stack.append(x)
+        else:
+            yield v
+
+
+def config_skips(f):
+    """Configuration tags a message with field values ``f`` must not be sent through, because it contains text that the
+    configuration RESERVES (documented by the option itself):
+      '+hex'  a string starting with "0x"  (prefix of the hex binary convention, the counterpart of U+0000 for base64)
+      '+dec'  a string that looks like a decimal number (use_decimal_from_str delivers it as Decimal)"""
+    out = set()
+    for v in _walk_scalars(f):
+        if type(v) is str:
+            if v[:2] == "0x":
+                out.add("+hex")
+            if len(v) <= 4096 and _DECIMAL_LOOKING.match(v):
+                out.add("+dec")
+            elif len(v) > 4096 and _DECIMAL_LOOKING.match(v[:64]) and _DECIMAL_LOOKING.match(v[-64:]):
+                out.add("+dec")
+    return out
+
+
+def has_bytes(f):
+    for v in _walk_scalars(f):
+        if type(v) in (bytes, bytearray, memoryview):
+            return True
+    return False
+
+
+RELATIONS = ("other-config", "other-batching", "same-config-other-instance", "same-instance", "other-format", "first")
+
+
+def fanout_plan(rng, sids):
+    """Order in which ONE message object is sent out over 2..6 links.  -> [(sid, instance kind)], instance kind in
+    pool0 / pool1 (instances that live as long as the shard) / fresh (created for this delivery, dropped afterwards).
+    Half of the plans contain two CONFIGURATIONS of one format with the same batching mode, others the same
+    configuration twice (separate instances) or both batching modes of one configuration."""
+    groups = {}
+    for s in sids:
+        fam, cfg, b = variant_parts(s)
+        groups.setdefault((fam, b), []).append(s)
+    multi = [g for g in groups.values() if len(g) > 1]
+    n = rng.randint(2, 6)
+    plan = []
+    x = rng.random()
+    if multi and x < 0.5:
+        plan += rng.sample(rng.choice(multi), 2)
+    elif x < 0.65:
+        plan += [rng.choice(sids)] * 2
+    elif x < 0.8:
+        s = rng.choice(sids)
+        fam, cfg, b = variant_parts(s)
+        o = fam + cfg + ("" if b else ".batched")
+        plan += [s, o] if o in sids else [s]
+    while len(plan) < n:
+        plan.append(rng.choice(sids))
+    rng.shuffle(plan)
+    return [(s, rng.choice(("pool0", "pool1", "fresh"))) for s in plan]
+
+
+def fanout_relation(sid, inst, earlier):
+    """Strongest relation of the link (sid, instance object) to the links the message object went out over before."""
+    fam, cfg, b = variant_parts(sid)
+    found = set()
+    for sid2, inst2 in earlier:
+        fam2, cfg2, b2 = variant_parts(sid2)
+        if fam2 != fam:
+            found.add("other-format")
+        elif cfg2 != cfg and b2 == b:
+            found.add("other-config")
+        elif sid2 != sid:
+            found.add("other-batching")
+        elif inst2 is not inst:
+            found.add("same-config-other-instance")
+        else:
+            found.add("same-instance")
+    for r in RELATIONS:
+        if r in found:
+            return r
+    return "first"
